@@ -13,6 +13,8 @@ NEEDLE_ONLY = ['cstr_ctor']
 
 def queries(tier, prop='C08'):
     hmax, nmax = (4, 3) if tier == 'quick' else (6, 4)
+    if prop == 'C02' and tier == 'quick':
+        hmax, nmax = 3, 2   # the UB build is slower; C02 quick uses the smaller grid, thorough the full one
     chars = ['char'] if tier == 'quick' else ['char', 'char16_t', 'wchar_t']
     ub = prop == 'C02'
     out = []
